@@ -17,8 +17,8 @@ build() { # build <pkg> <out> [flags...]
   local tmp="$out.$$"
   if ! (cd "$ROOT/harness" && go build $OVL "$@" -o "$tmp" "$pkg" 2>"$tmp.err"); then
     # development aid: untracked work-in-progress files of another check must not block this one —
-    # retry with the tracked files only (identical to the normal build once everything is committed)
-    files=$(cd "$ROOT/harness" && git ls-files "$pkg/*.go" | grep -v _test.go)
+    # retry with the files of the registered checks only (cmd/vcheck/REGISTERED)
+    files=$(cd "$ROOT/harness" && sed "s#^#$pkg/#" "$pkg/REGISTERED")
     (cd "$ROOT/harness" && go build $OVL "$@" -o "$tmp" $files) || { cat "$tmp.err" >&2; echo "BUILD FAILED: $pkg" >&2; rm -f "$tmp" "$tmp.err"; exit 2; }
   fi
   rm -f "$tmp.err"
